@@ -187,8 +187,15 @@ class Program:
                 if isinstance(st, (ast.FunctionDef, ast.AsyncFunctionDef)):
                     q = f"{prefix}.{st.name}"
                     f = Func(st, m, cls, q, parent)
-                    # later definitions (e.g. property setters) must not hide the first
-                    if q in self.funcs:
+                    # later definitions (e.g. property setters) must not hide the first,
+                    # except that a real definition replaces typing @overload stubs
+                    if q in self.funcs and "overload" in " ".join(self.funcs[q].decorators()):
+                        self.funcs[q] = f
+                        if cls is not None and parent is None:
+                            cls.methods[st.name] = f
+                        elif cls is None and parent is None:
+                            m.funcs[st.name] = f
+                    elif q in self.funcs:
                         q2 = q + "#" + str(st.lineno)
                         f.qualname = q
                         self.funcs[q2] = f
